@@ -49,7 +49,7 @@ def translate(repo, outdir):
 def definitions(text):
     """name -> (anchor comment, type, term) in order"""
     out = {}
-    for m in re.finditer(r"^\(\* (.*?) \*\)\nDefinition (\w+) : (.*?) := (.*?)\.\n(?=\(\* |\Z)", text, flags=re.S | re.M):
+    for m in re.finditer(r"^\(\* ([^\n]*?) \*\)\nDefinition (\w+) : (.*?) := (.*?)\.\n(?=\(\* |\Z)", text, flags=re.S | re.M):
         out[m.group(2)] = (m.group(1), m.group(3), m.group(4))
     return out
 
@@ -160,29 +160,189 @@ def report(res, out=sys.stdout):
 # built-in sensitivity list: one-token behaviour changes; each must change Generated.v or lose an anchor.
 # (file, old, new, what).  Kept next to the self-test so that a later "robustness" change to an extractor can be checked
 # for blindness with one command; entries whose OLD text is not in the tree (code moved on) are reported as SKIPPED.
+# Entry: (what, file, [candidate edits]); a candidate is (old, new) — old must occur exactly once — or (old, new, n): the
+# n-th occurrence (0-based).  The first candidate that applies is used, so one entry covers the unchanged and the tidied
+# spelling of the same spot.
+L, S, P, PX = "pdf/src/parser/lexer/mod.rs", "pdf/src/parser/lexer/str.rs", "pdf/src/primitive.rs", "pdf/src/parser/parse_xref.rs"
+E, C, F, X_, B_ = "pdf/src/enc.rs", "pdf/src/crypt.rs", "pdf/src/font.rs", "pdf/src/xref.rs", "pdf/src/backend.rs"
+FI, CO, OM, TY, ST = "pdf/src/file.rs", "pdf/src/content.rs", "pdf/src/object/mod.rs", "pdf/src/object/types.rs", "pdf/src/object/stream.rs"
 SENSITIVITY = [
-    ("pdf/src/parser/lexer/mod.rs", "b' ' | b'\\r' | b'\\n' | b'\\t' | b'\\0' | 0x0C", "b' ' | b'\\r' | b'\\n' | b'\\t' | b'\\0'", "is_whitespace: drop form feed"),
-    ("pdf/src/parser/lexer/str.rs", "(b'0'..=b'7').contains", "(b'0'..=b'9').contains", "octal digit test 7 -> 9"),
+    # ---- enc.rs (gen/extract.py)
+    ("decode_nibble: a..h -> a..f", E, [("a @ b'a' ..= b'h'", "a @ b'a' ..= b'f'")]),
+    ("encode_nibble: base 'a' -> 'A'", E, [("b'a' - 10 + c", "b'A' - 10 + c")]),
+    ("decode_hex: form feed no longer skipped", E, [(".filter(|&b| !matches!(b, 0 | 9 | 10 | 12 | 13 | 32))", ".filter(|&b| !matches!(b, 0 | 9 | 10 | 13 | 32))"),
+                                                     ("0 | 9 | 10 | 12 | 13 | 32 => true", "0 | 9 | 10 | 13 | 32 => true")]),
+    ("decode_hex: EOD '>' -> '<'", E, [("take_while(|&b| b != b'>')", "take_while(|&b| b != b'<')")]),
+    ("sym_85: range end 0x75 -> 0x74", E, [("0x21 ..= 0x75", "0x21 ..= 0x74")]),
+    ("decode_85: form feed no longer skipped", E, [("0 | b'\\t' | b'\\n' | 12 | b'\\r' | b' '", "0 | b'\\t' | b'\\n' | b'\\r' | b' '"),
+                                                    ("0 | 9 | 10 | 12 | 13 | 32 => true", "0 | 9 | 10 | 13 | 32 => true")]),
+    ("decode_85: '~' -> '}'", E, [("take_while(|&b| b != b'~')", "take_while(|&b| b != b'}')")]),
+    ("decode_85: 'z' -> 'y'", E, [("Some(b'z') =>", "Some(b'y') =>")]),
+    ("decode_85: padding of the empty tail 'u' -> 'v'", E, [("[b'u'; 5]", "[b'v'; 5]")]),
+    ("decode_85: '>' after '~' -> '<'", E, [("(Some(b'>'), None) => Ok(out)", "(Some(b'<'), None) => Ok(out)")]),
+    ("run_length_decode: literal runs below 127", E, [("if length < 128 {", "if length < 127 {")]),
+    ("run_length_decode: repeat base 257 -> 256", E, [("257 - length", "256 - length")]),
+    ("PredictorType::from_u8: 3 -> Paeth", E, [("3 => Ok(PredictorType::Avg),", "3 => Ok(PredictorType::Paeth),"), ("3 => PredictorType::Avg,", "3 => PredictorType::Paeth,")]),
+    ("PredictorType::from_u8: arm 4 dropped", E, [("            4 => Ok(PredictorType::Paeth),\n", ""), ("            4 => PredictorType::Paeth,\n", "")]),
+    ("unpredict: PNG from 11", E, [("if predictor >= 10 {", "if predictor > 10 {")]),
+    # ---- gen/extract_syn.py
+    ("is_whitespace: form feed dropped", L, [(" | b'\\x0c')", ")"), ("0x00 | 0x09 | 0x0A | 0x0C | 0x0D | 0x20", "0x00 | 0x09 | 0x0A | 0x0D | 0x20")]),
+    ("is_delimiter: '%' dropped", L, [('b"()<>[]{}/%"', 'b"()<>[]{}/"')]),
+    ("next_word: comment starts with '#'", L, [("Some(&b'%')", "Some(&b'#')")]),
+    ("next_word: a comment ends at LF only", L, [("|&b| b == b'\\n' || b == b'\\r'", "|&b| b == b'\\n'")]),
+    ("next_lexeme: \\b -> 0x07", S, [("b'b' => Some(b'\\x08')", "b'b' => Some(b'\\x07')"), ("b'b' => Some(0x08)", "b'b' => Some(0x07)")]),
+    ("next_lexeme: \\n -> CR", S, [("b'n' => Some(b'\\n')", "b'n' => Some(b'\\r')"), ("b'n' => Some(0x0A)", "b'n' => Some(0x0D)")]),
+    ("next_lexeme: escape arm \\f dropped", S, [("                    b'f' => Some(b'\\x0c'),\n", ""), ("                    b'f' => Some(0x0C),\n", "")]),
+    ("next_lexeme: octal digits 0..9", S, [("(b'0'..=b'7').contains", "(b'0'..=b'9').contains")]),
+    ("next_lexeme: octal digit test is_ascii_digit (seeded C03b)", S, [("(b'0'..=b'7').contains(&c)", "c.is_ascii_digit()"), ("!(b'0'..=b'7').contains(&digit)", "!digit.is_ascii_digit()")]),
+    ("next_lexeme: octal digit test polarity", S, [("if (b'0'..=b'7').contains(&c) {", "if !(b'0'..=b'7').contains(&c) {"), ("if !(b'0'..=b'7').contains(&digit) {", "if (b'0'..=b'7').contains(&digit) {")]),
+    ("next_lexeme: at most 2 octal digits", S, [("for _ in 0..3 {", "for _ in 0..2 {")]),
+    ("next_lexeme: octal base 10", S, [("char_code = char_code * 8 +", "char_code = char_code * 10 +")]),
+    ("hex string: form feed is not white-space", S, [(" || byte == b'\\x0c'", ""), (" || byte == 0x0C", "")]),
+    ("next_hex_byte: high nibble A..F + 0xB", S, [("c1 - b'A' + 0xA", "c1 - b'A' + 0xB")]),
+    ("next_hex_byte: end '>' -> '<'", S, [("b'>' => return Ok(None)", "b'<' => return Ok(None)")]),
+    ("next_stream: LF test -> VT", L, [("if b0 == b'\\n' {", "if b0 == b'\\x0b' {"), ("if first == b'\\n' {", "if first == b'\\x0b' {")]),
+    ("next_stream: CR LF skips 3", L, [("self.pos = pos + 2;", "self.pos = pos + 3;")]),
+    ("MAX_DEPTH 20 -> 19", "pdf/src/parser/mod.rs", [("const MAX_DEPTH: usize = 20;", "const MAX_DEPTH: usize = 19;")]),
+    ("serialize_name: '~' escaped", P, [("b'!' ..= b'~' if", "b'!' ..= b'}' if"), ("0x21 ..= 0x7E if", "0x21 ..= 0x7D if")]),
+    ("serialize_name: '#' written raw", P, [('!b"()<>[]{}/%#".contains(&b)', '!b"()<>[]{}/%".contains(&b)'), ("b'/', b'%', b'#'];", "b'/', b'%', b'%'];")]),
+    ("PdfString::serialize: hex from 0x81", P, [("any(|&b| b >= 0x80)", "any(|&b| b > 0x80)")]),
+    # ---- gen/extract_codec.py
+    ("predictor_geometry: 16 bits no longer allowed", E, [("params.bits_per_component, 1 | 2 | 4 | 8 | 16)", "params.bits_per_component, 1 | 2 | 4 | 8)")]),
+    ("from_kind_and_params: Crypt -> JPXDecode", E, [('"Crypt" => StreamFilter::Crypt,', '"Crypt" => StreamFilter::JPXDecode,')]),
+    ("from_kind_and_params: JPXDecode arm dropped", E, [('"JPXDecode" => StreamFilter::JPXDecode,\n', "\n")]),
+    ("decode: ASCII85 decoded by decode_hex", E, [("StreamFilter::ASCII85Decode => decode_85(data)", "StreamFilter::ASCII85Decode => decode_hex(data)")]),
+    ("StreamInfo: parameters of filter 0 for every filter", ST, [("match decode_params.get(i) {", "match decode_params.get(0) {")]),
+    ("StreamInfo: /DecodeParms -> /DP", ST, [('dict.remove("DecodeParms")', 'dict.remove("DP")')]),
+    # ---- gen/extract_crypt.py
+    ("key derivation: /EncryptMetadata bytes", C, [("hash.consume([0xff, 0xff, 0xff, 0xff]);", "hash.consume([0xff, 0xff, 0xff, 0xfe]);"), ("hash.consume([0xff_u8; 4]);", "hash.consume([0xff_u8; 3]);")]),
+    ("key derivation: password padded to 31", C, [("if pass.len() < 32 {", "if pass.len() < 31 {", 0)]),
+    ("key derivation: md5 rounds on 15 bytes", C, [("md5::compute(&data[..std::cmp::min(key_size, 16)])", "md5::compute(&data[..std::cmp::min(key_size, 15)])")]),
+    ("decrypt: salt", C, [('b"sAlT"', 'b"sAlt"'), ("[0x73, 0x41, 0x6C, 0x54]", "[0x73, 0x41, 0x6C, 0x74]")]),
+    ("decrypt: 2 bytes of the object number (seeded C06)", C, [("id.id.to_le_bytes()[..3]", "id.id.to_le_bytes()[..2]", 0), ("&id_bytes[..3]", "&id_bytes[..2]")]),
+    ("decrypt: object key capped at 15", C, [("(n + 5).min(16)", "(n + 5).min(15)", 0)]),
+    ("Decoder::key capped at 15", C, [("&self.key[.. std::cmp::min(self.key_size, 16)]", "&self.key[.. std::cmp::min(self.key_size, 15)]"), ("let len = self.key_size.min(16);", "let len = self.key_size.min(15);")]),
+    # ---- gen/extract_font.py
+    ("parse_cid: one-byte code has length 3", F, [("1 => Ok(b[0] as u16)", "3 => Ok(b[0] as u16)"), ("1 => Ok(bytes[0] as u16)", "3 => Ok(bytes[0] as u16)")]),
+    ("next_hex_byte: shift 3", S, [("(high_nibble << 4)", "(high_nibble << 3)")]),
+    ("next_word: name starts with '\\'", L, [("if self.buf[pos] == b'/' {", "if self.buf[pos] == b'\\\\' {")]),
+    ("next_word: '>>' -> ']]'", L, [('slice == b">>"', 'slice == b"]]"')]),
+    # ---- gen/extract_xref.py
+    ("HEADER without '-'", B_, [('const HEADER: &[u8] = b"%PDF-";', 'const HEADER: &[u8] = b"%PDF";'), ("b'D', b'F', b'-'];", "b'D', b'F'];")]),
+    ("header window 512", B_, [("std::cmp::min(1024, self.len())", "std::cmp::min(512, self.len())"), ("self.len().min(1024)", "self.len().min(512)")]),
+    ("XRefTable::new: generation 65534", X_, [("gen_nr: 0xffff }", "gen_nr: 0xfffe }"), ("gen_nr: 65535 }", "gen_nr: 65534 }")]),
+    ("XRefTable::new: filled with Promised", X_, [("entries.resize(num_objects as usize, XRef::Invalid);", "entries.resize(num_objects as usize, XRef::Promised);"), ("vec![XRef::Invalid; num_objects as usize]", "vec![XRef::Promised; num_objects as usize]")]),
+    ("xref stream: fields of a type-1 entry swapped", PX, [("XRef::Raw {pos: field1 as usize, gen_nr: field2 as GenNr}", "XRef::Raw {pos: field2 as usize, gen_nr: field1 as GenNr}")]),
+    ("xref stream: type 2 entry read as type 3", PX, [("2 => XRef::Stream {", "3 => XRef::Stream {")]),
+    ("xref stream: default type 0", PX, [("if w0 == 0 {\n            1\n", "if w0 == 0 {\n            0\n")]),
+    ("read_u64_from_stream: 4 bits per byte", PX, [("= 8 * i;", "= 4 * i;")]),
+    ("read_u64_from_stream: width limit u32", PX, [("size_of::<u64>()", "size_of::<u32>()")]),
+    ("xref table: keyword f -> F", PX, [('if w3 == "f" {', 'if w3 == "F" {'), ('if keyword == "f" {', 'if keyword == "F" {')]),
+    ("xref table: offset read as u32", PX, [("w1.to::<usize>()", "w1.to::<u32>()"), ("first.to::<usize>()", "first.to::<u32>()")]),
+    # ---- gen/extract_storage.py
+    ("write_revision: endobj without LF (seeded C04b)", FI, [('writeln!(self.backend, "\\nendobj")?;', 'writeln!(self.backend, "endobj")?;')]),
+    ("write_revision: write_stream(id + 2)", FI, [("xref_promise.get_inner().id as usize + 1", "xref_promise.get_inner().id as usize + 2"), ("xref_id as usize + 1", "xref_id as usize + 2")]),
+    ("write_stream: /W [2 ..]", X_, [("w: vec![1, a_w, b_w]", "w: vec![2, a_w, b_w]")]),
+    ("write_stream: /Index [1 ..]", X_, [("index: vec![0, size as u32]", "index: vec![1, size as u32]"), ("index: vec![0, size_u32]", "index: vec![1, size_u32]")]),
+    ("write_stream: /Index ends with size + 1", X_, [("index: vec![0, size as u32]", "index: vec![0, size as u32 + 1]"), ("let size_u32 = size as u32;", "let size_u32 = (size + 1) as u32;")]),
+    ("write_stream: fields cut from byte 7", X_, [("[8 - a_w ..]", "[7 - a_w ..]")]),
+    ("write_stream: widths swapped (seeded C10)", X_, [("let (max_a, max_b) = self.max_field_widths();", "let (max_b, max_a) = self.max_field_widths();")]),
+    ("resolve_ref: changes looked up by generation", FI, [("self.changes.get(&r.id)", "self.changes.get(&r.gen)")]),
+    ("resolve_ref: pending changes consulted after the table", FI, [("        match self.changes.get(&r.id) {\n            Some((p, _)) => Ok((*p).clone()),\n            None => match t!(self.refs.get(r.id)) {", "        match self.changes.get(&r.gen) {\n            Some((p, _)) => Ok((*p).clone()),\n            None => match t!(self.refs.get(r.id)) {"),
+                                                                    ("            return Ok((*changed).clone());", "            let _ = changed;")]),
+    # ---- gen/extract_import.py
+    ("Storage::empty: XRefTable::new(1)", FI, [("refs: XRefTable::new(0),", "refs: XRefTable::new(1),", 0)]),
+    ("Primitive::deep_clone: references copied as they are", OM, [("Primitive::Reference(r) => Ok(Primitive::Reference(r.deep_clone(cloner)?)),", "Primitive::Reference(r) => Ok(Primitive::Reference(r)),")]),
+    ("Primitive::deep_clone: arrays shallow", OM, [("Ok(Primitive::Array(parts.into_iter().map(|p| p.deep_clone(cloner)).try_collect()?))", "Ok(Primitive::Array(parts.clone()))"),
+                                                 ("let cloned_parts = parts.into_iter().map(|part| part.deep_clone(cloner)).try_collect()?;", "let cloned_parts = parts.clone();")]),
+    # ---- gen/extract_content.py
+    ("RenderingIntent::from_str: Perceptual -> Saturation", TY, [('"Perceptual" => Some(RenderingIntent::Perceptual),', '"Perceptual" => Some(RenderingIntent::Saturation),')]),
+    ("inline image: CS expands to Colorspace", CO, [('("CS", "ColorSpace"),', '("CS", "Colorspace"),')]),
+    ("inline image: G expands to DeviceRGB", CO, [('("G", "DeviceGray"),', '("G", "DeviceRGB"),')]),
+    ("inline image: filter abbreviation entry dropped", CO, [('            ("RL", "RunLengthDecode"),\n', "")]),
+    ("OpBuilder::parse: errors dropped under another option", CO, [("Err(e) if resolve.options().allow_invalid_ops => {", "Err(e) if resolve.options().allow_error_in_option => {"),
+                                                                    ("if resolve.options().allow_invalid_ops {", "if resolve.options().allow_error_in_option {")]),
+    ("OpBuilder::parse: polarity of allow_invalid_ops", CO, [("Err(e) if resolve.options().allow_invalid_ops => {", "Err(e) if !resolve.options().allow_invalid_ops => {"),
+                                                              ("if resolve.options().allow_invalid_ops {", "if !resolve.options().allow_invalid_ops {")]),
+    ("ParseOptions::strict: allow_invalid_ops false", OM, [("allow_invalid_ops: true,", "allow_invalid_ops: false,", 1)]),
+    # ---- gen/extract_cache.py
+    ("raw_image_data: LZW counts as an image filter", TY, [("StreamFilter::LZWDecode(_) => false,", "StreamFilter::LZWDecode(_) => true,"), ("                    | StreamFilter::LZWDecode(_)\n", "")]),
+    ("raw_image_data: Crypt counts as a transport filter", TY, [("StreamFilter::Crypt => true,", "StreamFilter::Crypt => false,"), ("| StreamFilter::RunLengthDecode => false,", "| StreamFilter::RunLengthDecode | StreamFilter::Crypt => false,")]),
+    ("raw_image_data: default false", TY, [("                    _ => true\n                }).unwrap_or(filters.len());", "                    _ => false\n                }).unwrap_or(filters.len());")]),
+    ("raw_image_data: JPX no longer an image codec", TY, [("                    [StreamFilter::JPXDecode] |\n", "")]),
+    # ---- gen/extract_typed.py
+    ("Option<T>: null object no longer None", OM, [("            Primitive::Null => Ok(None),\n            p => match T::from_primitive(p, resolve) {", "            Primitive::Integer(0) => Ok(None),\n            p => match T::from_primitive(p, resolve) {"),
+                                                   ("if let Primitive::Null = p {\n            return Ok(None);", "if let Primitive::Integer(0) = p {\n            return Ok(None);")]),
+    ("Option<T>: missing object no longer None", OM, [("Err(e) if e.is_missing_object() => Ok(None),", "Err(e) if e.is_eof() => Ok(None),")]),
+    ("Vec<T>: is_ref tests Name", OM, [("let is_ref = matches!(p, Primitive::Reference(_));", "let is_ref = matches!(p, Primitive::Name(_));"),
+                                        ("                        Primitive::Reference(_) => true,\n                        _ => false,", "                        Primitive::Name(_) => true,\n                        _ => false,")]),
+    ("Vec<T>: is_ref also for Null", OM, [("let is_ref = matches!(p, Primitive::Reference(_));", "let is_ref = matches!(p, Primitive::Reference(_) | Primitive::Null);"),
+                                           ("                        Primitive::Reference(_) => true,\n                        _ => false,", "                        Primitive::Reference(_) | Primitive::Null => true,\n                        _ => false,")]),
+    # ---- gen/extract_pagetree.py
+    ("PagesNode: /Type /Pagez", TY, [('"Pages" => Ok(PagesNode::Tree(', '"Pagez" => Ok(PagesNode::Tree(')]),
 ]
 
 
-def sensitivity(base_patches):
-    bad = 0
-    for rel, old, new, what in SENSITIVITY:
-        try:
-            res = run_one([], [(rel, old, new)], base_patches)
-        except SystemExit as e:
-            print("SKIPPED  %-60s %s" % (what, str(e)[:100]))
+def apply_candidates(tree, rel, cands):
+    path = os.path.join(tree, rel)
+    with open(path, encoding="utf-8") as f:
+        s = f.read()
+    for cand in cands:
+        old, new = cand[0], cand[1]
+        n = s.count(old)
+        if len(cand) == 2 and n == 1:
+            s2 = s.replace(old, new)
+        elif len(cand) == 3 and n > cand[2]:
+            i = -1
+            for _ in range(cand[2] + 1):
+                i = s.index(old, i + 1)
+            s2 = s[:i] + new + s[i + len(old):]
+        else:
             continue
-        hit = (not res["identical"]) or res["anchors_lost"]
-        names = ", ".join(c["name"] for c in res["changed"][:6]) or "; ".join(a.split(":")[0] + ":" + a.split(":")[1] for a in res["anchors_lost"][:3])
-        print("%-8s %-60s %s" % ("seen" if hit else "BLIND", what, names))
-        bad += 0 if hit else 1
-    return bad
+        with open(path, "w", encoding="utf-8") as f:
+            f.write(s2)
+        return True
+    return False
+
+
+def sensitivity(base_patches, only=None):
+    """every entry of SENSITIVITY against the (optionally patched) tree; returns the number of BLIND entries"""
+    tmp = tempfile.mkdtemp(prefix="trsens-")
+    bad = skipped = 0
+    try:
+        base = os.path.join(tmp, "base")
+        os.makedirs(base)
+        copy_inputs(base)
+        for p in base_patches:
+            apply_patch(base, p)
+        g0, m0 = translate(base, os.path.join(tmp, "g0"))
+        for k, (what, rel, cands) in enumerate(SENSITIVITY):
+            if only and only not in what:
+                continue
+            tree = os.path.join(tmp, "t")
+            shutil.rmtree(tree, ignore_errors=True)
+            shutil.copytree(base, tree)
+            if not apply_candidates(tree, rel, cands):
+                print("SKIPPED  %-62s (text not found in %s)" % (what, rel))
+                skipped += 1
+                continue
+            g1, m1 = translate(tree, os.path.join(tmp, "g1"))
+            res = compare(g0, m0, g1, m1)
+            lost = [a for a in m1 if a not in m0]
+            hit = (not res["identical"]) or lost
+            names = ", ".join(c["name"] for c in res["changed"][:5])
+            if lost:
+                names = "anchor lost: " + "; ".join(a.split(": ")[0] for a in lost[:2]) + (" | " + names if names else "")
+            print("%-8s %-62s %s" % ("seen" if hit else "BLIND", what, names))
+            bad += 0 if hit else 1
+        print("sensitivity: %d edits, %d BLIND, %d skipped" % (len(SENSITIVITY), bad, skipped))
+    finally:
+        shutil.rmtree(tmp, ignore_errors=True)
+    return bad + skipped
 
 
 def main(argv):
-    patches, edits, base, keep, expect_change, js, sens = [], [], [], None, False, False, False
+    patches, edits, base, keep, expect_change, js, sens, only = [], [], [], None, False, False, False, None
     i = 0
     while i < len(argv):
         a = argv[i]
@@ -192,6 +352,9 @@ def main(argv):
             js = True
         elif a == "--sensitivity":
             sens = True
+        elif a == "--only":
+            only = argv[i + 1]
+            i += 1
         elif a == "--keep":
             keep = argv[i + 1]
             i += 1
@@ -208,7 +371,7 @@ def main(argv):
             patches.append(a)
         i += 1
     if sens:
-        return 1 if sensitivity(base) else 0
+        return 1 if sensitivity(base, only) else 0
     if not patches and not edits:
         print(__doc__)
         return 2
